@@ -25,7 +25,7 @@ CONFIG = {
         "graph.Memory is represented by its node set, predecessors[s] = {p in nodes | s in succ p} (property C07); re-checked on every case by comparing Predecessors of every node after every operation",
         "the case lists of isKnownAlgorithm and descriptor.IsManifest are regenerated from the Go source on every run (Generated/GC09.v); that digest.SHA256/SHA512/SHA384 name the directories sha256/sha512/sha384 and which media-type constant belongs to which generator kind is stated by hand in Model/OciGC.v",
         "encoding/json, sha256, the file system (os.ReadDir/os.Remove/os.WriteFile) and go-digest Validate are not modelled: stray-file kinds (known algorithm directory, valid digest name) are inputs of the model",
-        "digest-only references of live descriptors after GC are not compared (they do not influence later Delete/GC outcomes); index.json is not read after GC (F2 belongs to C08/C10)",
+        "which digest-only references of live descriptors GC keeps (only tagged/kept referrers, or every one whose descriptor stays in the graph: repair of C08) is probed on the store at start-up and passed to the model and the reference (parameter kl of the theorems, which hold for both); digest-only references are not compared; index.json is not read after GC (F2 belongs to C08/C10)",
         "leaf descriptors that IndexAll records without their content being stored (foreign layers, unpushed blobs) are not graph nodes of the model; after the repair they are unobservable through Delete/GC/Predecessors",
         "sequential histories only (Delete and GC hold the store's exclusive lock)",
     ],
